@@ -185,8 +185,65 @@ fn found(pid: &str, name: &str, t: &T, what: String) -> String {
     format!("{{\"found\":true,\"finder\":\"program-corpus\",\"property\":\"{pid}\",\"program\":\"{name}\",\"program_hex\":\"{ser}\",\"what\":\"{}\"}}", what.replace('"', "'"))
 }
 
+/// C04 / C13 with a LIMITED heap: a guarded sub-program allocates garbage and returns an atom; for every heap limit in a window
+/// around the program's own footprint the run with ENABLE_GC must have the same outcome as the run without.  (This is how the
+/// interaction of the unchecked heap append of new_substr on an inline parent with the checked re-allocation in
+/// maybe_restore_with_node was found; repaired by the fix: commit listed in known_findings.json.)
+fn limited_heap_gc(pid: &str) -> Option<String> {
+    let big = vec![0x55u8; 700];
+    // (a (q . (f (c X G))) 1) and (a (q . (r (c G X))) 1): X is returned, G is garbage of 1400 bytes
+    let g = op(14, vec![n(1), n(1)]);
+    let xs: Vec<(&str, T)> = vec![
+        ("substr of an inline atom", op(12, vec![q(n(128)), q(nil()), q(n(1))])),
+        ("substr of a heap atom", op(12, vec![n(1), q(n(3)), q(n(40))])),
+        ("sha256", op(11, vec![q(n(1))])),
+        ("concat", op(14, vec![q(a(b"abc")), q(a(b"defgh"))])),
+        ("small sum", op(16, vec![q(n(70000)), q(n(70000))])),
+    ];
+    for (xname, x) in xs {
+        for order in [0u8, 1] {
+            let inner = if order == 0 { op(6, vec![op(4, vec![g.clone(), x.clone()])]) } else { op(5, vec![op(4, vec![x.clone(), g.clone()])]) };
+            let prog = op(2, vec![q(inner), n(1)]);
+            let mut probe = Allocator::new();
+            let _ = build(&mut probe, &prog);
+            let _ = probe.new_atom(&big);
+            let h0 = probe.heap_size();
+            for extra in (0..1500usize).chain([3000usize, 100000]) {
+                let limit = h0 + extra;
+                let mut outs = vec![];
+                for gc in [false, true] {
+                    let prog2 = prog.clone();
+                    let big2 = big.clone();
+                    let r = std::panic::catch_unwind(std::panic::AssertUnwindSafe(move || {
+                        let mut al = Allocator::new_limited(limit);
+                        let p = build(&mut al, &prog2);
+                        let env = al.new_atom(&big2).unwrap();
+                        let flags = if gc { ClvmFlags::ENABLE_GC } else { ClvmFlags::empty() };
+                        match run_program(&mut al, &ChiaDialect::new(flags), p, env, 0) {
+                            Ok(red) => format!("Ok(cost {}, {}) heap_size {}", red.0, hex(&node_to_bytes(&al, red.1).unwrap_or_default()), al.heap_size()),
+                            Err(e) => format!("Err({e})"),
+                        }
+                    }));
+                    outs.push(r.unwrap_or_else(|_| "PANIC".to_string()));
+                }
+                let over = outs[0].rsplit(' ').next().and_then(|h| h.parse::<usize>().ok()).map(|h| h > limit).unwrap_or(false);
+                if outs[0] != outs[1] || (pid == "C13" && over) {
+                    let name = format!("guarded {xname}, order {order}, heap limit {limit}");
+                    return Some(found(pid, &name, &prog, format!("Allocator::new_limited({limit}), env = 700-byte atom: without ENABLE_GC {} ; with ENABLE_GC {}", outs[0], outs[1])));
+                }
+            }
+        }
+    }
+    None
+}
+
 pub fn search(pid: &str) -> String {
     std::panic::set_hook(Box::new(|_| {}));
+    if pid == "C04" || pid == "C13" {
+        if let Some(f) = limited_heap_gc(pid) {
+            return f;
+        }
+    }
     let bases = [ClvmFlags::empty(), ClvmFlags::NEW_COST_MODEL, ClvmFlags::MALACHITE];
     let restrictions = [
         ClvmFlags::NO_UNKNOWN_OPS,
